@@ -29,12 +29,12 @@ def fmt_out(out, fmt):
     return int(t, 2).to_bytes(len(t) // 8, "big") if t else b""
 
 
-class CliEmittedOnRefusal(Exception):      # class names starting with "Cli" map to the error kind "Violation",
-    pass                                   # which never agrees with the model (common.err_kind)
+class CliEmittedOnRefusal(Exception):      # harness_violation: maps to the error kind "Violation", which never
+    harness_violation = True               # agrees with the model (common.err_kind)
 
 
 class CliMalformed(Exception):
-    pass
+    harness_violation = True
 
 
 def result(r):
